@@ -584,7 +584,8 @@ def snap(rng, a, b, occ):
         a2 = rng.choice([e, e - 1, s, s + 1, a])
         s, e = rng.choice(occ)
         b2 = rng.choice([s, s - 1, s + 1, e, b])
-        if a2 < b2:
+        # (stay inside the range the exported zone tables cover, look-back included)
+        if a2 < b2 and a2 >= WIN_LO * DAY:
             return a2, b2
     return a, b
 
